@@ -51,9 +51,11 @@ Definition stmt_C15_letter_members : Prop :=
   forall t b l u, b <= max_rune -> tolower t b = Some l -> toupper t b = Some u ->
     forall x, contains (letter_set b l u) x = true <-> (x = b \/ x = l \/ x = u).
 
-(* 3. the property's "iff" for ranges: the set is exactly the fold-equivalence closure of the range *)
+(* 3. the property's "iff" for ranges: the set is exactly the fold-equivalence closure of the range.
+      (x ranges over char32_t values: beyond 2^32 the model's add_delta wraps, which no rune can witness) *)
 Definition range_exact (t : ucd_table) (a b : N) (s : rune_set) : Prop :=
-  forall x, contains (sort_and_optimize s) x = true <-> exists r, in_rng a b r /\ fold_eq t x r.
+  forall x, x <= max_rune ->
+    (contains (sort_and_optimize s) x = true <-> exists r, in_rng a b r /\ fold_eq t x r).
 
 Definition stmt_C15_range_exact : Prop :=
   forall t, decompress_table = Some t ->
@@ -65,7 +67,8 @@ Definition stmt_C15_range_exact : Prop :=
 Definition maps_consistent (t : ucd_table) (a b : N) : Prop :=
   forall r x, in_rng a b r -> case_image t r x -> fold_eq t x r.
 Definition fold_preimages_reachable (t : ucd_table) (a b : N) : Prop :=
-  forall x r, in_rng a b r -> fold_eq t x r -> in_rng a b x \/ exists r', in_rng a b r' /\ case_image t r' x.
+  forall x r, x <= max_rune -> in_rng a b r -> fold_eq t x r ->
+    in_rng a b x \/ exists r', in_rng a b r' /\ case_image t r' x.
 
 Definition stmt_C15_range_exact_partial : Prop :=
   forall t a b s, b <= max_rune -> push_casefolded_range t rs_empty a b = RsOk s ->
@@ -88,3 +91,102 @@ Definition stmt_C15_range_refuted : Prop :=
 Definition stmt_C15_letter_refuted : Prop :=
   exists t l u, decompress_table = Some t /\ tolower t 115 = Some l /\ toupper t 115 = Some u /\
     fold_eq t 383 115 /\ contains (letter_set 115 l u) 383 = false.
+
+Definition stmt_C15_range_exact_refuted : Prop := ~ stmt_C15_range_exact.
+
+(* ------------------------------------------------------------------ 4. literals: the match_cf step *)
+
+(* the UTF-8 text of a sequence of scalar values *)
+Definition encode_all (rs : list N) : list N := concat (map (fun r => fst (encode_rune r)) rs).
+
+(* r is a scalar value whose folding is a scalar value with an encoding of the same length *)
+Definition fold_len_preserved (t : ucd_table) (r : N) : Prop :=
+  is_scalar r = true /\ exists f, tocasefold t r = Some f /\ is_scalar f = true /\ utf8_len f = utf8_len r.
+
+(* every entry (n, v) of the per-offset cache of casefold_compare is the folding of the n buffered bytes at
+   its offset *)
+Definition cache_sound (ucd : ucd_table) (s : mstate) : Prop :=
+  forall i n v, cache_get (foldcache s) i = Some (n, v) ->
+    i + n <= lenN (buf s) /\ utf8_tocasefold ucd (firstnN n (subject_from i s)) = Some v.
+
+Definition stmt_C15_cache_sound_init : Prop :=
+  forall ucd input chunks inter conds0 syms0, cache_sound ucd (init_state input chunks inter conds0 syms0).
+
+(* casefold_compare keeps the cache sound (it is only called once `available` has seen n bytes at i) *)
+Definition stmt_C15_cache_sound_preserved : Prop :=
+  forall ucd i n str s r s', cache_sound ucd s -> i + n <= lenN (buf s) ->
+    casefold_compare_at ucd i n str s = Some (r, s') ->
+    cache_sound ucd s' /\ buf s' = buf s /\ sr s' = sr s.
+
+(* reading more input keeps it sound as well *)
+Definition stmt_C15_cache_sound_poll : Prop :=
+  forall ucd s, cache_sound ucd s -> cache_sound ucd (poll s).
+
+(* the outcome of the instruction `match_cf str` in state s *)
+Definition lit_accepts (ucd : ucd_table) (str : list N) (s : mstate) (n : N) : Prop :=
+  exists s', m_seq ucd true str s = inr (false, s') /\ sr s' = sr s + n /\ buf s' = buf s /\ cache_sound ucd s'.
+Definition lit_rejects (ucd : ucd_table) (str : list N) (s : mstate) : Prop :=
+  exists s', m_seq ucd true str s = inr (true, s') /\ sr s' = sr s /\ buf s' = buf s /\ cache_sound ucd s'.
+
+(* The setting: the literal's text is the UTF-8 encoding of the scalars rs (str is the operand the
+   compiler emits for it, i.e. its folding), the buffered input at sr starts with the encoding of the
+   scalars rs'. *)
+Definition literal_setting (ucd : ucd_table) (rs rs' : list N) (str : list N) (s : mstate) : Prop :=
+  rs <> [] /\
+  utf8_tocasefold ucd (encode_all rs) = Some str /\
+  (exists rest, subject_from (sr s) s = encode_all rs' ++ rest) /\
+  bytes_ok (buf s) /\
+  cache_sound ucd s.
+
+(* the property for literals, on the shipped table, for arbitrary texts: false (see the refutations) *)
+Definition stmt_C15_literal : Prop :=
+  forall ucd, decompress_table = Some ucd ->
+  forall rs rs' str s, Forall (fun r => is_scalar r = true) rs -> Forall (fun r => is_scalar r = true) rs' ->
+    literal_setting ucd rs rs' str s ->
+    (lit_accepts ucd str s (lenN (encode_all rs')) <-> Forall2 (fold_eq ucd) rs rs').
+
+(* what holds, for every table: if folding preserves the encoded length of every character involved and the
+   input text has as many bytes as the literal's text, the step accepts (advancing over the input text) iff the
+   two texts are fold-equal character by character; otherwise it rejects without moving.  Whatever the
+   (sound) cache holds. *)
+Definition stmt_C15_literal_partial : Prop :=
+  forall ucd rs rs' str s,
+    Forall (fold_len_preserved ucd) rs -> Forall (fold_len_preserved ucd) rs' ->
+    literal_setting ucd rs rs' str s ->
+    lenN (encode_all rs') = lenN (encode_all rs) ->
+    (lit_accepts ucd str s (lenN (encode_all rs')) \/ lit_rejects ucd str s) /\
+    (lit_accepts ucd str s (lenN (encode_all rs')) <-> Forall2 (fold_eq ucd) rs rs').
+
+(* fold-equal texts of length-preserved characters have the same number of bytes, so the "if" direction
+   needs no hypothesis on byte lengths *)
+Definition stmt_C15_literal_accepts : Prop :=
+  forall ucd rs rs' str s,
+    Forall (fold_len_preserved ucd) rs -> Forall (fold_len_preserved ucd) rs' ->
+    literal_setting ucd rs rs' str s ->
+    Forall2 (fold_eq ucd) rs rs' ->
+    lit_accepts ucd str s (lenN (encode_all rs')).
+
+(* Refutations of stmt_C15_literal by evaluation on the shipped table (all caches empty):
+   (a) literal "as" against input "a" ++ U+017F: fold-equal, rejected (the operand's length, 2 bytes, is
+       cut out of the input before folding, which splits U+017F);
+   (b) literal U+017F against the identical input U+017F: rejected (operand "s", 1 byte). *)
+Definition stmt_C15_literal_refuted : Prop :=
+  exists ucd, decompress_table = Some ucd /\
+    (exists str, let s := init_state (encode_all [97; 383]) [] false [] [] in
+       literal_setting ucd [97; 115] [97; 383] str s /\ Forall2 (fold_eq ucd) [97; 115] [97; 383] /\
+       lit_rejects ucd str s) /\
+    (exists str, let s := init_state (encode_all [383]) [] false [] [] in
+       literal_setting ucd [383] [383] str s /\ Forall2 (fold_eq ucd) [383] [383] /\
+       lit_rejects ucd str s).
+
+Definition stmt_C15_literal_not_general : Prop := ~ stmt_C15_literal.
+
+(* (c) with a length-changing folding the outcome depends on what the cache happens to hold, even though it
+   is sound: input U+017F 's'.  In a fresh state `match_cf "s"` rejects; after a (failed) `match_cf "ss"` at
+   the same offset it accepts and leaves sr in the middle of the two-byte character. *)
+Definition stmt_C15_literal_cache_dependent : Prop :=
+  exists ucd, decompress_table = Some ucd /\
+    let s0 := init_state (encode_all [383; 115]) [] false [] [] in
+    exists s1, m_seq ucd true [115; 115] s0 = inr (true, s1) /\
+      sr s1 = sr s0 /\ buf s1 = buf s0 /\ cache_sound ucd s0 /\ cache_sound ucd s1 /\
+      lit_rejects ucd [115] s0 /\ lit_accepts ucd [115] s1 1.
